@@ -667,10 +667,34 @@ func (f *Field) bsiGroup(name string) *bsiGroup {
 	defer f.mu.RUnlock()
 	for _, bsig := range f.bsiGroups {
 		if bsig.Name == name {
-			return bsig
+			// Return a copy: the bit depth of the stored group grows under
+			// f.mu while callers read the returned value without the lock.
+			c := *bsig
+			return &c
 		}
 	}
 	return nil
+}
+
+// growBitDepth raises the bit depth of a bsiGroup to at least depth and
+// returns the depth in force. The depth never shrinks, so a concurrent writer
+// that needs fewer bits cannot undo the growth of another one.
+func (f *Field) growBitDepth(name string, depth uint) (uint, error) {
+	f.mu.Lock()
+	defer f.mu.Unlock()
+	for _, bsig := range f.bsiGroups {
+		if bsig.Name == name {
+			if depth > bsig.BitDepth {
+				bsig.BitDepth = depth
+				f.options.BitDepth = depth
+				if err := f.saveMeta(); err != nil {
+					return bsig.BitDepth, err
+				}
+			}
+			return bsig.BitDepth, nil
+		}
+	}
+	return 0, ErrBSIGroupNotFound
 }
 
 // hasBSIGroup returns true if a bsiGroup exists on the field.
@@ -1009,22 +1033,15 @@ func (f *Field) SetValue(columnID uint64, value int64) (changed bool, err error)
 
 	// Increase bit depth value if the unsigned value is greater.
 	if requiredBitDepth > bsig.BitDepth {
-		if err := func() error {
-			f.mu.Lock()
-			defer f.mu.Unlock()
-
-			uvalue := uint64(baseValue)
-			if value < 0 {
-				uvalue = uint64(-baseValue)
-			}
-			bitDepth := bitDepth(uvalue)
-
-			bsig.BitDepth = bitDepth
-			f.options.BitDepth = bitDepth
-			return f.saveMeta()
-		}(); err != nil {
+		uvalue := uint64(baseValue)
+		if value < 0 {
+			uvalue = uint64(-baseValue)
+		}
+		depth, err := f.growBitDepth(f.name, bitDepth(uvalue))
+		if err != nil {
 			return false, errors.Wrap(err, "increasing bsi max")
 		}
+		bsig.BitDepth = depth
 	}
 
 	// Fetch target view.
@@ -1233,20 +1250,15 @@ func (f *Field) importValue(columnIDs []uint64, values []int64, options *ImportO
 
 	// Increase bit depth if required.
 	if requiredDepth > bsig.BitDepth {
-		if err := func() error {
-			f.mu.Lock()
-			defer f.mu.Unlock()
-			bsig.BitDepth = requiredDepth
-			f.options.BitDepth = requiredDepth
-			return f.saveMeta()
-		}(); err != nil {
+		depth, err := f.growBitDepth(f.name, requiredDepth)
+		if err != nil {
 			return errors.Wrap(err, "increasing bsi bit depth")
 		}
-	} else {
-		// Write every bit of the field so that higher bits of the values
-		// being replaced are cleared.
-		requiredDepth = bsig.BitDepth
+		bsig.BitDepth = depth
 	}
+	// Write every bit of the field so that higher bits of the values being
+	// replaced are cleared.
+	requiredDepth = bsig.BitDepth
 
 	// Split import data by fragment.
 	dataByFragment := make(map[importKey]importValueData)
